@@ -46,11 +46,26 @@ def scenarios(tier):
     return sc
 
 
+def build_sterm(d):
+    import os
+    import subprocess
+    out = os.path.join(d, "s_term")
+    flags = list(vc.BASE_FLAGS) + ["-w", "-I" + vc.SRC, "-I" + os.path.join(vc.VERIF, "harness")]
+    p = subprocess.run(["gcc"] + flags + [os.path.join(vc.VERIF, "harness/s_term.c"), "-o", out], capture_output=True, text=True)
+    if p.returncode:
+        raise vc.EngineError(p.stderr[-2000:])
+    return out
+
+
 def run(tier, seed):
     t0 = time.time()
     d = vc.fresh_dir(PID)
     binary = hc.build(d)
     reps, m, viol = vc.rsched_scenarios(PID, "h_run", binary, scenarios(tier), d, workers=8)
+    # module level: every sequence of the termination module's entry points up to a depth
+    srep = vc.run_seqx(build_sterm(d), [5 if tier == "quick" else 6], timeout=3000, env_extra={"SX_DEADLINE": "300" if tier == "quick" else "2400"})
+    stot, sviol = vc.seqx_collect(PID, "term", [srep])
+    viol += sviol
     if not viol or all("C07" not in v["signature"] for v in viol):
         for k in ("ended_by_predicate", "ended_by_time", "rollbacks", "termination_checked"):
             if hc.counters_nz(m, k) == 0:
@@ -63,6 +78,13 @@ def run(tier, seed):
                            "the largest reported GVT reached the termination time (infinity on exhaustion) or every LP's predicate is true at "
                            "initialisation or after some event of the reference execution with timestamp below that GVT; non-trivial = run "
                            "that ended because the predicates held")
+    cov["termination_module_sequences"] = {"evaluations": stot["evaluations"], "with_rollback": stot["distinct_nontrivial"],
+                                           "depth": srep.get("depth"), "exhaustive": srep.get("exhaustive"), "samples": stot["samples"][:3]}
+    cov["evaluations"] += stot["evaluations"]
+    cov["rule"] += ("; plus s_term: every sequence of <= %s calls of termination_on_msg_process / termination_on_lp_rollback / "
+                    "termination_on_gvt of the real gvt/termination.c for 2 LPs (timestamps 0..3 incl. ties and rollbacks at exactly the "
+                    "termination time with 0..2 tied events surviving, every predicate outcome, predicates true at init) against a shadow of "
+                    "the valid event history" % srep.get("depth"))
     vc.write_evidence(PID, tier, "model_checking", cov,
                       ["finite models: a correct runtime returns at the latest on exhaustion (GVT = infinity >= termination time)",
                        "call-granularity interleavings; <= 3 threads; one rank"],
